@@ -16,6 +16,18 @@ CHECKS = {
         note="Trusted: the naive model BitOps.tla; TLC; the harness' observation of a BitBuffer's private read cursor through "
              "follow-up public reads. Exhaustive only within the stated buffer sizes; larger buffers are sampled by traces.",
         technique="TLA+ functional model + TLC case enumeration replayed into the real code + trace validation"),
+    "C10": dict(
+        category="model_checking",
+        text="X691Prim.tla transcribes X.691 clause 11 (and the length/fragmentation parts of 16/17/20) over Big numbers. TLC (a) proves on "
+             "a design-level machine with shrunken thresholds that the fragmentation loops refine the functional plan, invert each other and "
+             "terminate; (b) enumerates argument tuples of every public primitive - exhaustive small ranges, all pairs of 2^k boundary bounds "
+             "up to the i64/u64 extremes, all length thresholds +-1 and fragment classes up to 200000, inadmissible tuples included - and "
+             "the real PackedWrite must produce exactly the reference bits (or refuse), PackedRead must return the value and stop exactly "
+             "at the end; (c) validates recorded histories of primitive calls on one buffer against the same operators.",
+        design_ref="DESIGN.md section 7, C10",
+        note="Trusted: X691Prim.tla as a reading of X.691 (cross-checked against the repository's third-party fixtures in C02), TLC, Big.tla. "
+             "Inside the input classes of the two open findings only the persistence of the deviation is checked.",
+        technique="TLA+ reference encoder + TLC case enumeration replayed into the real code + trace validation + design-level model checking"),
 }
 
 NOT_APPLICABLE = {}
